@@ -425,6 +425,12 @@ type Reach struct {
 // wrappers); external callees are leaves (recorded in Set but not expanded),
 // except that calls *back* into the module from external code are not followed.
 // stop(fn) = true prunes below fn (fn itself is still in the set).
+// isPkgInit: the package initializer (it always runs: the function literals of
+// package-level variables exist in every execution).
+func isPkgInit(f *ssa.Function) bool {
+	return f != nil && f.Name() == "init" && f.Synthetic != "" && f.Parent() == nil
+}
+
 func (w *World) ReachFrom(roots []*ssa.Function, stop func(*ssa.Function) bool, edgeOK ...func(caller *ssa.Function, site ssa.CallInstruction, callee *ssa.Function) bool) *Reach {
 	g := w.CG()
 	r := &Reach{w: w, Set: map[*ssa.Function]bool{}, pred: map[*ssa.Function]*ssa.Function{}, site: map[*ssa.Function]ssa.CallInstruction{}}
@@ -505,7 +511,7 @@ func (w *World) ReachFrom(roots []*ssa.Function, stop func(*ssa.Function) bool, 
 			}
 			// a closure exists only if its enclosing function ran: VTA merges all
 			// closures flowing into one callback type, including those of dead code
-			if par := c.Parent(); par != nil && !r.Set[par] && !r.hasOrigin(par) {
+			if par := c.Parent(); par != nil && !r.Set[par] && !r.hasOrigin(par) && !isPkgInit(par) {
 				deferred = append(deferred, deferredEdge{f, c, e.Site})
 				continue
 			}
